@@ -5,6 +5,7 @@ import (
 	"go/types"
 	"sort"
 	"strings"
+	"sync"
 
 	"golang.org/x/tools/go/ssa"
 )
@@ -56,6 +57,9 @@ func OnlyClasses(v ssa.Value, allowed ...string) (bool, []string) {
 		for _, a := range allowed {
 			if a == c || (strings.HasSuffix(a, "*") && strings.HasPrefix(c, strings.TrimSuffix(a, "*"))) {
 				ok = true
+			}
+			if t := ThinTarget(c); t != "" && t == a {
+				ok = true // a helper that only forwards the accepted producer
 			}
 		}
 		if !ok {
@@ -127,7 +131,9 @@ func classify(v ssa.Value, set map[string]bool, seen map[ssa.Value]bool, depth i
 				set["const"] = true
 			}
 		case *ssa.Call:
-			set[callClass(t)] = true
+			for _, k := range callClasses(t, x.Index, depth) {
+				set[k] = true
+			}
 		case *ssa.Lookup:
 			if x.Index == 0 {
 				sub := map[string]bool{}
@@ -146,7 +152,9 @@ func classify(v ssa.Value, set map[string]bool, seen map[ssa.Value]bool, depth i
 			set["extract"] = true
 		}
 	case *ssa.Call:
-		set[callClass(x)] = true
+		for _, k := range callClasses(x, 0, depth) {
+			set[k] = true
+		}
 	case *ssa.Parameter:
 		set["param:"+shortType(x.Type())] = true
 	case *ssa.FreeVar:
@@ -231,6 +239,63 @@ func classify(v ssa.Value, set map[string]bool, seen map[ssa.Value]bool, depth i
 
 func classifyAddrBase(v ssa.Value, set map[string]bool, seen map[ssa.Value]bool, depth int) {
 	classify(v, set, seen, depth)
+}
+
+// callClasses is callClass, and notes thin wrappers: when the static callee is a function of the analysed module
+// every exit of which returns (at result index idx) the result of one and the same other call, the class of that inner
+// call is recorded as the wrapper's target (thinWrapper). `func coerce(p) (m, error) { return getVariableValues(...) }` and
+// functions that add recover / logging around a single producer are thereby transparent to provenance tables.
+func callClasses(c *ssa.Call, idx int, depth int) []string {
+	own := []string{callClass(c)}
+	f := c.Call.StaticCallee()
+	if f == nil || f.Blocks == nil || f.Pkg == nil || !strings.HasPrefix(f.Pkg.Pkg.Path(), ModPath) || depth > 30 {
+		return own
+	}
+	inner := map[string]bool{}
+	for _, ret := range Returns(f) {
+		if idx >= len(ret.Results) {
+			return own
+		}
+		v := RetVal(ret, idx)
+		sub := map[string]bool{}
+		classify(v, sub, map[ssa.Value]bool{}, depth+10)
+		for k := range sub {
+			inner[k] = true
+		}
+	}
+	// error / zero exits next to the producing call are fine; anything else means the function computes something
+	n, cls := 0, ""
+	for k := range inner {
+		switch {
+		case k == "nil" || k == "const":
+		case strings.HasPrefix(k, "call:") || strings.HasPrefix(k, "dyn:"):
+			n++
+			cls = k
+		default:
+			return own
+		}
+	}
+	if n == 1 && cls != own[0] {
+		thinMu.Lock()
+		thinWrapper[own[0]] = cls
+		thinMu.Unlock()
+	}
+	return own
+}
+
+// thinWrapper maps the class of a call to a thin wrapper to the class of the single call it forwards
+// (see callClasses). Classification itself keeps the wrapper's own class, so that tables naming library
+// functions keep working; OnlyClasses accepts a wrapper wherever the class it forwards is accepted.
+var (
+	thinMu      sync.Mutex
+	thinWrapper = map[string]string{}
+)
+
+// ThinTarget returns the class a thin wrapper class forwards, or "".
+func ThinTarget(class string) string {
+	thinMu.Lock()
+	defer thinMu.Unlock()
+	return thinWrapper[class]
 }
 
 func callClass(c *ssa.Call) string {
